@@ -1,5 +1,5 @@
 #!/bin/bash
-V=${VERIF_SRC:-/verif}   # where the harness sources are read from (a snapshot copy keeps a long matrix run stable)
+export V=${VERIF_SRC:-/verif}   # where the harness sources are read from (a snapshot copy keeps a long matrix run stable)
 # usage: seedmatrix.sh <seed-id> <tier> <prop> [prop...]
 # Runs checks against a seeded change WITHOUT touching /repo: the patch is applied to a scratch worktree, the
 # harness is rebuilt against it (alternate -modfile with the replace pointing there) and run with
